@@ -111,14 +111,14 @@ Section Perm.
   Definition perm_jobs (guard : bool) (hc : Z) (A : list row) (rows cols : list Z) : option R :=
     let '(A', rows') := preprocess A rows in
     let lims := lims_of rows' in
-    jobs_total R rO radd pstate (p_init A' rows') (p_step A' rows') (p_addend cols) lims
+    jobs_total 64 R rO radd pstate (p_init A' rows') (p_step A' rows') (p_addend cols) lims
                (concurrency guard hc (prodZ lims)).
 
   Definition laplace_jobs (guard : bool) (hc : Z) (A : list row) (rows cols : list Z)
     : option (list R) :=
     let '(A', rows') := preprocess A rows in
     let lims := lims_of rows' in
-    jobs_total (list R) (map (fun _ => rO) cols) vadd pstate
+    jobs_total 64 (list R) (map (fun _ => rO) cols) vadd pstate
                (p_init A' rows') (p_step A' rows') (l_addend cols) lims
                (concurrency guard hc (prodZ lims)).
 
